@@ -106,6 +106,8 @@ def tasks(tier):
     # asyncio: while a callback is suspended, another task runs a complete send() or activate_initial_state()
     for action in ("send", "activate", "both"):
         for fails in (False, True):
+            if tier == "quick" and action == "both" and fails:
+                continue
             out.append({"kind": "async-suspend", "action": action, "fails": fails, "nested": True})
     out.append({"kind": "burst", "engine": "sync"})
     out.append({"kind": "burst", "engine": "async"})
@@ -137,6 +139,11 @@ def run_async_suspend(ctx, params):
             async def on_tick(self, eid):
                 return await self.hook(eid)
 
+            async def on_enter_a(self, event):
+                # the initial activation is an event like the others: its enter callback may be suspended too
+                if str(event) == "__initial__":
+                    await self.hook("__init__")
+
         sm = AConc()
         inj = Injector(ctx, sm, [])
         q = GDeque()
@@ -162,7 +169,7 @@ def run_async_suspend(ctx, params):
         began[eid] = began.get(eid, 0) + 1
         log.append(("begin", eid))
         try:
-            if params["nested"] and not str(eid).endswith("'") and ctx.choose(2, f"nested@{eid}"):
+            if params["nested"] and eid != "__init__" and not str(eid).endswith("'") and ctx.choose(2, f"nested@{eid}"):
                 child = f"{eid}'"
                 sent.append(child)
                 await sm.send("tick", eid=child)
@@ -188,8 +195,20 @@ def run_async_suspend(ctx, params):
 
     sm.hook = hook
 
+    def quiescent(after):
+        # every call made so far has returned: nothing may be left waiting in the queue
+        left_ = deque.__len__(q)
+        if left_:
+            raise Mismatch(f"event-lost-or-stranded:asyncio:{params['action']}", f"{left_} event(s) still queued after {after} returned (every sender has returned): {log}")
+
     async def main():
-        await sm.activate_initial_state()
+        sent.append("__init__")
+        try:
+            await sm.activate_initial_state()
+        except Fail:
+            log.append(("raised-to", "activation"))
+        log.append(("returned", "activation"))
+        quiescent("activate_initial_state()")
         for top in ("A", "Z"):
             sent.append(top)
             try:
@@ -197,6 +216,7 @@ def run_async_suspend(ctx, params):
             except Fail:
                 log.append(("raised-to", top))
             log.append(("returned", top))
+            quiescent(f"send({top})")
         # whatever was not scheduled inside a callback runs afterwards
         while pending:
             who, act = pending.pop(0)
